@@ -60,8 +60,11 @@ class SingletonPoolSink(PoolSink):
       self.next_sink.Open().wait()
       return self.next_sink
     elif self.next_sink.is_closed:
-      self.next_sink.on_faulted.Unsubscribe(self.__PropagateShutdown)
-      self.next_sink = None
+      # Close the failed sink before dropping it: it may still own resources
+      # (e.g. a resurrector that would reconnect behind our back).
+      sink, self.next_sink = self.next_sink, None
+      sink.on_faulted.Unsubscribe(self.__PropagateShutdown)
+      sink.Close()
       return self._Get()
     else:
       return self.next_sink
